@@ -252,8 +252,16 @@ class FormulaGen:
             return self.colon_text()
         if x < 0.36:
             ts = [self.ref()]
-            if rng.random() < 0.25:
+            y = rng.random()
+            if y < 0.25:
                 ts += [("Y", ":"), self.ref()]
+            elif y < 0.32 and depth > 0:
+                # the range operator with a function call as its right operand: A1:INDEX(B:B,3)
+                call = [("F", rng.choice(["INDEX", "OFFSET", "INDIRECT", "IF", "LOG10"]))] + self.expr(depth - 1)
+                if rng.random() < 0.6:
+                    call += [("Y", ",")] + self.expr(depth - 1)
+                ts += [("Y", ":")] + call + [("Y", ")")]
+                return ts if rng.random() < 0.7 else [self.sheet_prefix()] + ts
             if rng.random() < 0.25:
                 ts = [self.sheet_prefix()] + ts
                 if rng.random() < 0.15:
